@@ -41,6 +41,9 @@ EXC_KINDS = {
     'FileNotFoundError': lambda k: FileNotFoundError(2, 'No such file or directory (injected at step %d)' % k),
     'ValueError': lambda k: ValueError('injected at step %d' % k),
     'MemoryError': lambda k: MemoryError('injected at step %d' % k),
+    # not Exception subclasses: Ctrl-C while a slow write runs (tool.main turns it into return code 1), sys.exit in a hook
+    'KeyboardInterrupt': lambda k: KeyboardInterrupt('injected at step %d' % k),
+    'SystemExit': lambda k: SystemExit('injected at step %d' % k),
 }
 
 
@@ -276,7 +279,7 @@ class Env(object):
             rcode = tool.main(args)
             return rcode != 0, rcode
         except BaseException as e:
-            if isinstance(e, (KeyboardInterrupt,)):
+            if isinstance(e, (KeyboardInterrupt,)) and 'injected' not in str(e):
                 raise
             return True, e
 
@@ -324,7 +327,7 @@ def run_config_source(cfg, source, res):
             return
         plan = [(k, 'InjectedFault') for k in range(1, n + 1)]
         if source != 'sanity':
-            plan += [(k, exc) for exc in ('OSError', 'FileNotFoundError', 'ValueError', 'MemoryError')
+            plan += [(k, exc) for exc in ('OSError', 'FileNotFoundError', 'ValueError', 'MemoryError', 'KeyboardInterrupt', 'SystemExit')
                      for k in sorted({1, (n + 1) // 2, n})]
         for k, exc in plan:
             env.reset()
